@@ -285,7 +285,7 @@ def n1_strip(text):
             if toks[j].text == '[':
                 close = match_close(toks, j)
                 inner = text[toks[j].end:toks[close].start].strip()
-                if re.match(r'(inline|must_use|allow|derive|doc|cold|track_caller|non_exhaustive|deprecated)\b', inner):
+                if re.match(r'(inline|must_use|allow|derive|doc|cold|track_caller|non_exhaustive|deprecated|repr|serde)\b', inner):
                     edits.append((t.start, toks[close].end, ''))
                     recs.append(dict(rule='N1', before=text[t.start:toks[close].end], after=''))
                 k = close
